@@ -190,8 +190,7 @@ Requests(p) ==
     \cup {Req("GET", w, "", 0, <<>>, "-") : w \in Stray}
   ELSE IF Profile = "history" THEN
     \* every call of the history - also one that a later call replaced - is asked for under its own method
-    UNION {{Req(hs[i].method, Build(hs[i].segs, a, enc), "", hs[i].id, a, enc) : a \in HistAssign(hs[i].segs), enc \in EncsFor(hs[i].segs, FALSE)}
-           : i \in 1..Len(hs)}
+    UNION {{Req(hs[i].method, Build(hs[i].segs, a, "min"), "", hs[i].id, a, "min") : a \in HistAssign(hs[i].segs)} : i \in 1..Len(hs)}
     \cup {Req(m, w, "", 0, <<>>, "-") : w \in Stray, m \in MethodSet}
   ELSE
     UNION {{Req("GET", Build(hs[i].segs, a, "min"), "", hs[i].id, a, "min") : a \in SmallAssign(hs[i].segs)} : i \in 1..Len(hs)}
